@@ -7058,7 +7058,7 @@ class FrameGO(Frame):
             block = value # NOTE: could own_data here with additional argument
 
         else:
-            if not hasattr(value, '__iter__') or isinstance(value, str):
+            if not hasattr(value, '__iter__') or isinstance(value, (str, bytes)):
                 block = np.full(row_count, value)
                 block.flags.writeable = False
             else:
